@@ -300,6 +300,31 @@ def run_case(case) -> CaseResult:
         # the certificate
         sopts = {'server_host_keys': [(hk(k), cert)],
                  'send_server_host_keys': False}
+
+        if case.get('ca_via') == 'callback' and not case.get('shared'):
+            # the application vouches for the CA keys through
+            # SSHClient.validate_host_ca_key() instead of @cert-authority
+            # lines; everything else about the certificate (type, validity
+            # window, principals, revocation) is still the library's job
+            labels.add('ca-via-callback')
+            trusted_blobs = {hk(name).public_data for name in tc}
+            kh2 = render([ln for ln in lines
+                          if ln.get('marker') != 'cert-authority'])
+            copts['known_hosts'] = kh2.encode()
+
+            class CAClient(asyncssh.SSHClient):
+                def validate_host_ca_key(self, host, addr, port, key):
+                    return key.public_data in trusted_blobs
+
+            copts['client_factory'] = CAClient
+            # (without CA lines asyncssh only asks for the algorithms of the
+            # plain keys it trusts: an application trusting CAs through the
+            # callback names the certificate algorithms itself)
+            from asyncssh.public_key import (get_default_certificate_algs,
+                                             get_default_public_key_algs)
+            copts['server_host_key_algs'] = [
+                a.decode() for a in get_default_certificate_algs() +
+                get_default_public_key_algs()]
     else:   # liar
         shown = ident['key']
         why = 'liar'
@@ -493,6 +518,7 @@ def strategy(tier: str):
         'alias': pick([None, None, 'alias.example']),
         'port': pick([22, 22, 2222]),
         'via': pick(['direct', 'direct', 'direct', 'tunnel', 'proxy']),
+        'ca_via': pick(['known_hosts', 'known_hosts', 'callback']),
         'identity': ident})
 
 
@@ -549,6 +575,7 @@ FAMILIES = [
                              'why:cert:future', 'why:cert:principal',
                              'why:cert:bad-signature', 'why:liar',
                              'via:direct', 'via:tunnel', 'via:proxy',
+                             'ca-via-callback',
                              'match:key', 'match:cert-authority',
                              'match:revoked', 'shared-known-hosts-object']},
            case_timeout=120),
